@@ -393,6 +393,13 @@ def k12(ctx, rid):
     c03.i10(ctx, rid)
 
 
+def k13(ctx, rid):
+    """with data validation enabled the recovery scan audits every record's data: the flag reaches the scan unchanged
+    (C05.V8 instances)"""
+    import props.c05 as c05
+    c05.v8(ctx, rid)
+
+
 RULES = [
     Rule('C06.K1', 'every blob-file read / decode in the open path is converted to a quarantine-class error before `?`', k1, 6),
     Rule('C06.K2', 'the sequential scan accepts a header only after comparing the end of its extent with the file size and stops only at the exact end of file', k2, 2),
@@ -403,6 +410,7 @@ RULES = [
     Rule('C06.K10', 'read wrappers of the io layer report unsatisfiable reads only as UnexpectedEof', k10, 1),
     Rule('C06.K11', 'Blob::from_file scans whenever the file exceeds the blob header (no slack in the guard)', k11, 1),
     Rule('C06.K12', 'a short (empty / cut) index file left by an interrupted dump is regenerated at the next start (C03.I10 instance)', k12, 1),
+    Rule('C06.K13', 'the data-validation flag handed to the recovery scan is the configured flag and nothing else (C05.V8 instances)', k13, 2),
     Rule('C06.K8', 'the id of every blob that failed to open (ignored or quarantined) is never reused (C07.H6/H6d instances)', k8, 4),
     Rule('C06.K7', 'a torn or stale index file is never trusted: gate tests every header fact (blob size by equality), the file extent, and the written flag is set in a second phase (C03.I2/I5/I8 instances)', k7, 8),
 ]
